@@ -210,6 +210,63 @@ theorem toggleAll_pairwise (op : Op) (a c : TSel) (r : Res) :
 
 /-! ### A test on singleton sets equals the test on their single members -/
 
+/-- `rightmost` is what its documentation says — an item with the highest end — for every set, sorted or not (the
+fast path that took the last item of a sorted set was a defect: a sorted set is ordered by begin first) -/
+theorem rightmostScan_max : ∀ (l : List TSel) (acc : Option TSel),
+    ∃ m, rightmostScan l acc = (if l = [] then acc else some m) ∧ (l ≠ [] → (∀ x ∈ l, x.e ≤ m.e) ∧ (∀ a, acc = some a → a.e ≤ m.e) ∧ (m ∈ l ∨ acc = some m))
+  | [], acc => ⟨⟨0, 0⟩, by simp [rightmostScan], fun h => absurd rfl h⟩
+  | x :: xs, none => by
+    obtain ⟨m, hm, hprop⟩ := rightmostScan_max xs (some x)
+    by_cases hxs : xs = []
+    · subst hxs
+      exact ⟨x, by simp [rightmostScan], fun _ => ⟨by simp, by simp, Or.inl (by simp)⟩⟩
+    · obtain ⟨h1, h2, h3⟩ := hprop hxs
+      refine ⟨m, by simp [rightmostScan, hm, hxs], fun _ => ⟨?_, by simp, ?_⟩⟩
+      · intro y hy
+        rcases List.mem_cons.mp hy with rfl | hy
+        · exact h2 _ rfl
+        · exact h1 y hy
+      · rcases h3 with h | h
+        · exact Or.inl (List.mem_cons_of_mem _ h)
+        · simp only [Option.some.injEq] at h; subst h; exact Or.inl (by simp)
+  | x :: xs, some a => by
+    obtain ⟨m, hm, hprop⟩ := rightmostScan_max xs (if x.e > a.e then some x else some a)
+    by_cases hxs : xs = []
+    · subst hxs
+      by_cases hgt : x.e > a.e
+      · exact ⟨x, by simp [rightmostScan, hgt], fun _ => ⟨by simp, by intro b hb; cases hb; omega, Or.inl (by simp)⟩⟩
+      · exact ⟨a, by simp [rightmostScan, hgt], fun _ => ⟨by intro y hy; simp at hy; subst hy; omega, by intro b hb; cases hb; omega, Or.inr rfl⟩⟩
+    · obtain ⟨h1, h2, h3⟩ := hprop hxs
+      refine ⟨m, by simp [rightmostScan, hm, hxs], fun _ => ⟨?_, ?_, ?_⟩⟩
+      · intro y hy
+        rcases List.mem_cons.mp hy with rfl | hy
+        · by_cases hgt : y.e > a.e
+          · exact h2 y (by simp [hgt])
+          · have := h2 a (by simp [hgt]); omega
+        · exact h1 y hy
+      · intro b hb
+        simp only [Option.some.injEq] at hb
+        subst hb
+        by_cases hgt : x.e > a.e
+        · have := h2 x (by simp [hgt]); omega
+        · exact h2 a (by simp [hgt])
+      · rcases h3 with h | h
+        · exact Or.inl (List.mem_cons_of_mem _ h)
+        · by_cases hgt : x.e > a.e
+          · simp only [hgt, ↓reduceIte, Option.some.injEq] at h; subst h; exact Or.inl (by simp)
+          · simp only [hgt, ↓reduceIte, Option.some.injEq] at h; subst h; exact Or.inr rfl
+
+theorem rightmost_is_max_end (s : TSet) (hne : s.items ≠ []) :
+    ∃ m, s.rightmost = some m ∧ m ∈ s.items ∧ ∀ x ∈ s.items, x.e ≤ m.e := by
+  obtain ⟨m, hm, hprop⟩ := rightmostScan_max s.items none
+  obtain ⟨h1, _, h3⟩ := hprop hne
+  refine ⟨m, by simp [TSet.rightmost, hm, hne], ?_, h1⟩
+  rcases h3 with h | h
+  · exact h
+  · cases h
+
+example : (⟨[⟨0, 10⟩, ⟨2, 3⟩], true⟩ : TSet).rightmost = some ⟨0, 10⟩ := by decide
+
 theorem singleton_testSet (op : Op) (a c : TSel) (r : Res) (sorted : Bool) :
     testSet op a ⟨[c], sorted⟩ r = test op a c r := by
   op_cases op <;> cases ng <;> cases al <;> cases sorted <;>
